@@ -103,22 +103,25 @@ Definition tau2_of (tol : float) : Q := let t := (f64_Q tol * (1025 # 1024))%Q i
 
 Definition bin_ok (alpha : float) (icpt : bool) (X : list (list float)) (t : list bool)
            (w : list float) (b : float) (tol : float) : bool :=
-  f64_finite alpha && f64_finite tol && mat_finite X && vec_finite w && f64_finite b
+  Qle_bool 0 (f64_Q tol) &&
+  (f64_finite alpha && f64_finite tol && mat_finite X && vec_finite w && f64_finite b
   && (icpt || Qeq_bool (f64_Q b) 0)
-  && bin_ok_Q (f64_Q alpha) icpt (qmat X) t (qvec w) (f64_Q b) (tau2_of tol).
+  && bin_ok_Q (f64_Q alpha) icpt (qmat X) t (qvec w) (f64_Q b) (tau2_of tol)).
 
 Definition glm_ok (p : float) (l : link) (alpha : float) (icpt : bool) (X : list (list float)) (y : list float)
            (w : list float) (b : float) (tol : float) : bool :=
-  f64_finite p && f64_finite alpha && f64_finite tol && mat_finite X && vec_finite y && vec_finite w && f64_finite b
+  Qle_bool 0 (f64_Q tol) &&
+  (f64_finite p && f64_finite alpha && f64_finite tol && mat_finite X && vec_finite y && vec_finite w && f64_finite b
   && (icpt || Qeq_bool (f64_Q b) 0)
-  && glm_ok_Q (f64_Q p) l (f64_Q alpha) icpt (qmat X) (qvec y) (qvec w) (f64_Q b) (tau2_of tol).
+  && glm_ok_Q (f64_Q p) l (f64_Q alpha) icpt (qmat X) (qvec y) (qvec w) (f64_Q b) (tau2_of tol)).
 
 Definition multi_ok (k : nat) (alpha : float) (icpt : bool) (X : list (list float)) (y : list nat)
            (W : list (list float)) (b : list float) (tol : float) : bool :=
-  f64_finite alpha && f64_finite tol && mat_finite X && mat_finite W && vec_finite b
+  Qle_bool 0 (f64_Q tol) &&
+  (f64_finite alpha && f64_finite tol && mat_finite X && mat_finite W && vec_finite b
   && Nat.eqb (length b) k && forallb (fun row => Nat.eqb (length row) k) W
   && (icpt || forallb (fun v => Qeq_bool (f64_Q v) 0) b)
-  && multi_ok_Q k (f64_Q alpha) icpt (qmat X) y (qmat W) (qvec b) (tau2_of tol).
+  && multi_ok_Q k (f64_Q alpha) icpt (qmat X) y (qmat W) (qvec b) (tau2_of tol)).
 
 (** ** value oracles for probabilities / predictions (enclosure of the true value) *)
 Definition close_i (v : Q) (truth : I.type) (abs_tol rel_tol : Q) : bool :=
@@ -148,3 +151,10 @@ Definition exp_consistent (arg : Q) (e : float) : bool :=
       close_i (f64_Q e) (I.exp prec (iv_q prec arg)) (1 # (2 ^ 1074)) (1 # (2 ^ 50))
   | _ => false
   end.
+
+(** real values of float data (for the statements of the soundness theorems) *)
+Definition f64_R (x : float) : R := Q2R (f64_Q x).
+Definition rvec (v : list float) : list R := map f64_R v.
+Definition rmat (m : list (list float)) : list (list R) := map rvec m.
+(** the certified bound on the gradient norm: tol * (1 + 2^-10) *)
+Definition tauR (tol : float) : R := (f64_R tol * (1025 / 1024))%R.
